@@ -662,8 +662,9 @@ def recursion(F, res, seen):
             ok, why = cut_unify(F)
         elif "ide::ty::infer::Collector::collect" in members:
             ok, why = cut_collect(F)
-        elif members == ["ide::ty::infer::InferCtx::make_ty_from_typeref"]:
-            ok, why = cut_alias(F)
+        elif "ide::ty::infer::InferCtx::make_ty_from_typeref" in members and all(m.startswith("ide::ty::infer::InferCtx::") for m in members):
+            # the expansion of an alias may live in a private helper of the context that calls back (`expand_alias`)
+            ok, why = cut_alias(F, helpers=[m for m in members if m != "ide::ty::infer::InferCtx::make_ty_from_typeref"])
         res.ob("Q5", "recursion/" + key, "this recursive cycle terminates on every workspace (it walks a graph that can be cyclic, so it needs a cycle cut)",
                ok, where=F.fns[members[0]].loc(), how=why)
 
@@ -700,10 +701,13 @@ def cut_collect(F):
                 "collect() descends without a cache hit test / placeholder store before collect_uncached")
 
 
-def cut_alias(F):
+def cut_alias(F, helpers=()):
     mk = F.fn("ide::ty::infer::InferCtx::make_ty_from_typeref")
+    if helpers:
+        from lib import inline as IL
+        mk = IL.inlined(F, mk, want=lambda p: p in helpers, depth=2)
     d = FL.Defs(mk)
-    rec = [(b, t) for b, t in mk.calls() if callee(t) == mk.path]
+    rec = [(b, t) for b, t in mk.calls() if callee(t) == "ide::ty::infer::InferCtx::make_ty_from_typeref"]
     alias_rec = []
     for b, t in rec:
         o = d.origin_op(t["args"][1], FL.PASS_THROUGH + ("Option::<T>::filter",))
@@ -712,7 +716,7 @@ def cut_alias(F):
             base = base["base"]
         if base.get("k") == "call" and (callee(base["t"]) or "").endswith("TypeAlias::data"):
             alias_rec.append(b)
-    clos = [F.fns[c] for c in F.closures_of(mk.path)]
+    clos = [F.fns[c] for c in F.closures_of("ide::ty::infer::InferCtx::make_ty_from_typeref")] + [F.fns[c] for h in helpers for c in F.closures_of(h)]
     guard = any(FL.short(callee(t2) or callee_def(t2)).endswith("contains") for c in clos for _, t2 in c.calls()) or \
         any(FL.short(callee(t2) or callee_def(t2)).endswith("contains") for _, t2 in mk.calls())
     pushes = [b for b, t in mk.calls() if FL.short(callee(t) or callee_def(t)) == "Vec::push" and "TypeAliasId" in str((t.get("fn") or {}).get("targs"))]
